@@ -129,6 +129,55 @@ type step struct {
 	Exp     *exp     `json:"exp"`
 }
 
+type histEv struct {
+	Ev    string `json:"ev"`
+	Op    int    `json:"op"`
+	W     int    `json:"w"`
+	Res   []int  `json:"res"`
+	Stale bool   `json:"stale"`
+	Node  string `json:"node,omitempty"`
+}
+
+// observe records what clients could see now: responses of writes, and one read per serving leader
+func (r *runner) observe(names []string) {
+	for i, w := range r.sim.Writes() {
+		if w.Done && w.Err == "" && !r.wRet[i] {
+			r.wRet[i] = true
+			r.hist = append(r.hist, histEv{Ev: "retw", Op: i + 1, Res: []int{}})
+		}
+	}
+	type rd struct {
+		node string
+		term int64
+		idx  []int
+	}
+	var reads []rd
+	for _, n := range names {
+		if running, _ := r.blRunning(n); running {
+			continue // BecomeLeader holds the controller lock until the quorum is there: reads would block
+		}
+		if idx, term, ok := r.sim.ReadKeys(n); ok {
+			reads = append(reads, rd{n, term, idx})
+			if term > r.maxLTerm {
+				r.maxLTerm = term
+			}
+		}
+	}
+	if len(reads) > 0 {
+		time.Sleep(300 * time.Microsecond) // the list goroutine closes its iterator after completing the stream
+	}
+	for _, x := range reads {
+		r.nextOp++
+		op := 1000 + r.nextOp
+		r.hist = append(r.hist, histEv{Ev: "invr", Op: op, Res: []int{}, Node: x.node})
+		res := []int{}
+		for _, i := range x.idx {
+			res = append(res, i+1)
+		}
+		r.hist = append(r.hist, histEv{Ev: "retr", Op: op, Res: res, Stale: x.term < r.maxLTerm, Node: x.node})
+	}
+}
+
 type mismatch struct {
 	Index     int    `json:"index"` // line of the behaviour in the input file
 	Step      int    `json:"step"`
@@ -147,6 +196,11 @@ type runner struct {
 	wT   []int64
 	wNode []string
 	blStarted map[string]bool
+	// client history (C02): invocations and responses in the order the harness saw them
+	hist      []histEv
+	nextOp    int
+	wRet      map[int]bool
+	maxLTerm  int64
 }
 
 func eqEntries(a, b []cluster.PEntry) bool {
@@ -480,12 +534,22 @@ func replayOne(beh []step, timeout time.Duration) (*mismatch, error) {
 	if err != nil {
 		return nil, err
 	}
-	defer sim.Close()
-	r := &runner{sim: sim, timeout: timeout, blStarted: map[string]bool{}}
+	defer func() {
+		if onTeardown != nil {
+			onTeardown()
+		}
+		time.Sleep(3 * time.Millisecond) // let read goroutines of the nodes close their iterators
+		sim.Close()
+	}()
+	r := &runner{sim: sim, timeout: timeout, blStarted: map[string]bool{}, wRet: map[int]bool{}}
+	defer func() { lastHistory = r.hist }()
 	for i := range beh {
 		st := &beh[i]
 		if st.A == "Idle" {
 			continue
+		}
+		if st.A == "Write" {
+			r.hist = append(r.hist, histEv{Ev: "invw", Op: len(r.wOff) + 1, W: len(r.wOff) + 1, Res: []int{}})
 		}
 		if err := r.exec(st); err != nil {
 			kf := []string{}
@@ -497,9 +561,13 @@ func replayOne(beh []step, timeout time.Duration) (*mismatch, error) {
 		if f, w := r.await(st.Exp); f != "" {
 			return &mismatch{Step: i, Action: st.A, Field: f, What: w, Kf: st.Exp.Kf}, nil
 		}
+		r.observe(names)
 	}
 	return nil, nil
 }
+
+var lastHistory []histEv
+var onTeardown func()
 
 func describe(st *step) string {
 	switch st.A {
@@ -807,6 +875,8 @@ func workerMain(args []string) {
 			os.Exit(2)
 		}
 		_ = enc.Encode(map[string]any{"start": i})
+		cur := i
+		onTeardown = func() { _ = enc.Encode(map[string]any{"teardown": cur}) }
 		// watchdog: a behaviour that takes minutes means the harness (or the node) is stuck
 		wd := time.AfterFunc(90*time.Second, func() {
 			fmt.Fprintln(os.Stderr, "verif harness watchdog: behaviour stuck")
@@ -851,7 +921,7 @@ func workerMain(args []string) {
 		if mm != nil {
 			mm.Index = *offset + i**stride
 		}
-		_ = enc.Encode(map[string]any{"end": i, "mismatch": mm, "unconfirmed": unconfirmed})
+		_ = enc.Encode(map[string]any{"end": i, "mismatch": mm, "unconfirmed": unconfirmed, "history": lastHistory, "index": *offset + i**stride})
 	}
 }
 
@@ -913,6 +983,7 @@ func main() {
 		crashes     int
 		hung        int
 		err         error
+		hist        []histEv
 	}
 	ch := make(chan wres, *workers)
 	self, _ := os.Executable()
@@ -927,6 +998,7 @@ func main() {
 		go func(pf string, n int, w int) {
 			var r wres
 			skip := 0
+			teardownCrashes := 0
 			for skip < n && !stop.Load() {
 				cmd := exec.Command(self, "worker", "-in", pf, "-timeout", timeout.String(), "-skip", fmt.Sprint(skip),
 					"-stride", fmt.Sprint(*workers), "-offset", fmt.Sprint(w))
@@ -940,18 +1012,26 @@ func main() {
 				sc := bufio.NewScanner(outp)
 				sc.Buffer(make([]byte, 1<<20), 1<<28)
 				started, ended := -1, -1
+				tearing := false
 				for sc.Scan() {
 					var ev struct {
 						Start       *int      `json:"start"`
 						End         *int      `json:"end"`
 						Mismatch    *mismatch `json:"mismatch"`
 						Unconfirmed bool      `json:"unconfirmed"`
+						History     []histEv  `json:"history"`
+						Index       int       `json:"index"`
+						Teardown    *int      `json:"teardown"`
 					}
 					if json.Unmarshal(sc.Bytes(), &ev) != nil {
 						continue
 					}
 					if ev.Start != nil {
 						started = *ev.Start
+						tearing = false
+					}
+					if ev.Teardown != nil {
+						tearing = true
 					}
 					if ev.End != nil {
 						ended = *ev.End
@@ -964,6 +1044,10 @@ func main() {
 						if ev.Unconfirmed {
 							r.unconfirmed++
 						}
+						if ev.Mismatch == nil && len(ev.History) > 0 {
+							r.hist = append(r.hist, histEv{Ev: "reset", Op: ev.Index, Res: []int{}})
+							r.hist = append(r.hist, ev.History...)
+						}
 					}
 					if stop.Load() {
 						_ = cmd.Process.Kill()
@@ -975,6 +1059,17 @@ func main() {
 				}
 				if err == nil {
 					break // all behaviours of this part done
+				}
+				if started > ended && tearing {
+					// the process died while the harness was tearing the cluster down (abandoned goroutines of the
+					// nodes racing with Close): the behaviour itself was replayed; re-run it once to get its verdict
+					teardownCrashes++
+					if teardownCrashes <= 3 {
+						skip = started
+					} else {
+						skip = started + 1
+					}
+					continue
 				}
 				if started > ended {
 					// the process died while replaying behaviour `started`: the real code panicked
@@ -1014,8 +1109,13 @@ func main() {
 		}(pf, len(part), w)
 	}
 	var ferr error
+	hf, _ := os.Create(*out + ".history.ndjson")
+	henc := json.NewEncoder(hf)
 	for w := 0; w < *workers; w++ {
 		r := <-ch
+		for i := range r.hist {
+			_ = henc.Encode(&r.hist[i])
+		}
 		res.Mismatches = append(res.Mismatches, r.mm...)
 		res.Unconfirmed += r.unconfirmed
 		res.Crashes += r.crashes
